@@ -367,7 +367,14 @@ func (ss *scriptedServer) run() {
 			wg.Add(1)
 			config := ws.Config
 			rt.GoNamed("resp", func() {
-				defer wg.Done()
+				// the process does not wait for late signals (below) before it exits: only the answer is
+				// something the plugin owes
+				answered := false
+				defer func() {
+					if !answered {
+						wg.Done()
+					}
+				}()
 				if call.Resp.DelayMs > 0 {
 					time.Sleep(time.Duration(call.Resp.DelayMs) * time.Millisecond)
 				}
@@ -402,6 +409,9 @@ func (ss *scriptedServer) run() {
 					if ss.write(ss.answer(runID, call, config)) != nil {
 						return
 					}
+					answered = true
+					wg.Done()
+					// a late forwarder: best effort, cut off when the process exits (nobody may be reading any more)
 					for i := 0; i < call.Resp.PostSignals; i++ {
 						rt.Yield(siteSrv)
 						if ss.write(runtimeMsg(atp.MessageTypeSignal, runID, map[string]any{"signal_id": "note", "data": map[string]any{"k": int64(100 + i)}})) != nil {
@@ -523,9 +533,8 @@ func runClientPlan(t *testing.T, plan *ClientPlan, fault ClientFault, tape *rt.T
 								}
 								for _, sg := range call.Signals {
 									rt.Yield(siteHarness)
-									select {
-									case toStep <- schema.Input{RunID: call.RunID, ID: sg.ID, InputData: sg.Data}:
-									case <-stop:
+									// (a scheduler-visible select: with both cases ready the runtime would pick at random)
+									if rt.Select(siteSigSelect, rt.NewSend(toStep, schema.Input{RunID: call.RunID, ID: sg.ID, InputData: sg.Data}), rt.NewRecv(stop)) == 1 {
 										return
 									}
 									rt.Yield(siteHarness)
@@ -536,15 +545,12 @@ func runClientPlan(t *testing.T, plan *ClientPlan, fault ClientFault, tape *rt.T
 								defer side.Done()
 								for {
 									rt.Yield(siteDrain)
-									select {
-									case _, ok := <-fromStep:
-										if !ok {
-											return
-										}
-										res.FromStep++
-									case <-stop:
+									cFrom := rt.NewRecv(fromStep)
+									if rt.Select(siteSigSelect, cFrom, rt.NewRecv(stop)) == 1 || !cFrom.OK {
+										// Execute returned (the client closed the channel, or the call was refused and it was never used)
 										return
 									}
+									res.FromStep++
 								}
 							})
 							results[i].Started = true
